@@ -409,7 +409,14 @@ def execute(plan, ctx):
         if plan['noise'] == 0 and plan['design'] not in ('matrix', 'matrix_mixed'):
             from rsatoolbox.rdm import calc_rdm
             try:
-                r = calc_rdm(ds[0], method='euclidean', descriptor='cond_vec')
+                d_est = ds[0]
+                if theta is not None:
+                    # (calc_rdm does not take datasets whose dataset-level descriptors hold arrays -- the theta of a weighted
+                    #  model: the estimate is made from the same measurements and condition vector without that entry)
+                    from rsatoolbox.data import Dataset
+                    d_est = Dataset(np.array(ds[0].measurements, copy=True), obs_descriptors={'cond_vec': np.array(ds[0].obs_descriptors['cond_vec'], copy=True)},
+                                    descriptors={k: v for k, v in ds[0].descriptors.items() if k != 'theta'})
+                r = calc_rdm(d_est, method='euclidean', descriptor='cond_vec')
             except Exception:
                 # calc_rdm is C01's primitive; it rejects datasets whose dataset-level descriptors are arrays
                 # (theta of a weighted model) -- observed, not judged here
